@@ -427,7 +427,16 @@ func (e *l2Env) step(i int, op sOp) error {
 			ls := m.start.In(e.loc)
 			bumped := prev != nil && prev.end.Equal(m.start)
 			if !bumped {
-				if ls.Minute() != 0 || ls.Second() != 0 || ls.Nanosecond() != 0 || (e.rule.Unit == DAY && ls.Hour() != 0) {
+				// HOUR: the start is the first instant of its local wall-clock hour (on a day whose DST gap removes
+				// hh:00, e.g. a 30-minute shift, that is hh:30); DAY: local midnight
+				onGrid := ls.Second() == 0 && ls.Nanosecond() == 0
+				if e.rule.Unit == DAY {
+					onGrid = onGrid && ls.Hour() == 0 && ls.Minute() == 0
+				} else if ls.Minute() != 0 {
+					pv := ls.Add(-time.Nanosecond)
+					onGrid = onGrid && (pv.Hour() != ls.Hour() || pv.YearDay() != ls.YearDay())
+				}
+				if !onGrid {
 					seg.DecRef()
 					return fmt.Errorf("%s: new segment starts at %s which is not on the %s grid", what, ls, e.c.Unit)
 				}
@@ -808,6 +817,11 @@ func hourGridOffClass(c sCase) bool {
 	}
 	base, _ := time.Parse(time.RFC3339, c.Base)
 	_, off70 := time.Date(1970, 1, 1, 0, 0, 0, 0, loc).Zone()
+	if c.Zone == "Australia/Lord_Howe" && len(c.Legacy) > 0 {
+		// a 30-minute DST shift: an older HOUR x n>1 segment that spans the switch ends at hh:30, the next new
+		// segment is squeezed to start there, but its directory name only keeps the hour
+		return true
+	}
 	nums := map[int]bool{c.Num: true}
 	for _, op := range c.Ops {
 		if op.Kind == "update" && op.N > 0 {
@@ -818,14 +832,18 @@ func hourGridOffClass(c sCase) bool {
 		if op.Kind != "create" {
 			continue
 		}
-		_, off := base.Add(time.Duration(op.T) * time.Minute).In(loc).Zone()
+		ts := base.Add(time.Duration(op.T) * time.Minute)
 		for n := range nums {
 			// a zone that skipped a calendar day (date-line change) is off by that day as well
 			if n > 1 && c.Zone == "Pacific/Apia" {
 				return true
 			}
-			if n > 1 && (off-off70)%(n*3600) != 0 {
-				return true
+			// the bucket that holds ts may start up to n hours earlier, under another offset
+			for k := -n; n > 1 && k <= n; k++ {
+				_, off := ts.Add(time.Duration(k) * time.Hour).In(loc).Zone()
+				if (off-off70)%(n*3600) != 0 {
+					return true
+				}
 			}
 		}
 	}
@@ -884,7 +902,27 @@ func dayGridOddZoneClass(c sCase) bool {
 	}
 	switch c.Zone {
 	case "Pacific/Apia", "America/Sao_Paulo", "America/New_York", "Europe/Berlin", "Australia/Lord_Howe":
-		return multi // zones with DST (or a skipped day): days are not all 24 h long
+		if multi {
+			return true // zones with DST (or a skipped day): days are not all 24 h long
+		}
+	}
+	// the skipped calendar day itself (Pacific/Apia had no 2011-12-30): with any n the segment of 2011-12-29
+	// ends where it starts
+	if c.Zone == "Pacific/Apia" {
+		loc, err := time.LoadLocation(c.Zone)
+		base, _ := time.Parse(time.RFC3339, c.Base)
+		for _, op := range c.Ops {
+			if err != nil || op.Kind != "create" {
+				continue
+			}
+			ts := base.Add(time.Duration(op.T) * time.Minute).In(loc)
+			if ts.Year() == 2011 && ts.Month() == time.December && ts.Day() >= 28 {
+				return true
+			}
+			if ts.Year() == 2012 && ts.Month() == time.January && ts.Day() <= 2 {
+				return true
+			}
+		}
 	}
 	return false
 }
